@@ -155,8 +155,8 @@ pub fn def() -> CheckDef {
         assumptions: vec!["the library may reject for reasons of its own (class, QTYPE, Z bit, surplus): no claim", "unnamed opcode / rcode values are compared as Reserved"],
         sections: vec![
             Box::new(ReplayOnly { name: "fuzz-bytes", check: check_raw }),
-            Box::new(PropSection { name: "rdlength", rule: "RDLENGTH vs content mismatches", strategy, cases: (60_000, 1_500_000), check }),
-            Box::new(PropSection { name: "mutated", rule: "mutated reference encodings", strategy: super::c01::mutated_strategy, cases: (60_000, 1_500_000), check: check_mutated }),
+            Box::new(PropSection { name: "rdlength", rule: "RDLENGTH vs content mismatches", strategy, cases: (300_000, 3_000_000), check }),
+            Box::new(PropSection { name: "mutated", rule: "mutated reference encodings", strategy: super::c01::mutated_strategy, cases: (300_000, 3_000_000), check: check_mutated }),
         ],
     }
 }
